@@ -164,13 +164,9 @@ func storeCall(c *core.Ctx, fn *core.Fn, method string) (*ast.AssignStmt, pat.Bi
 
 // progressFact matches the atoms `n != 0` / `err != nil` with value false
 // (i.e. no progress and no error), given bindings for n and err.
-func noProgressEdge(info *types.Info, b *cfg.Block, succ int, binds pat.Binds) bool {
-	c := cfgq.CondOf(b)
-	if c == nil {
-		return false
-	}
+func noProgressEdge(g *cfgq.Graph, info *types.Info, b *cfg.Block, succ int, binds pat.Binds) bool {
 	gotN, gotErr := false, false
-	for _, f := range cfgq.Facts(c, succ == 0) {
+	for _, f := range g.EdgeFacts(b, succ) {
 		if pat.Expr("_n != 0").Match(info, f.Expr, binds) != nil && !f.Val || pat.Expr("_n == 0").Match(info, f.Expr, binds) != nil && f.Val {
 			gotN = true
 		}
@@ -201,7 +197,7 @@ func side(c *core.Ctx, fn *core.Fn, name, own, peer, peerErr string) {
 	// the no-progress edge must have signalled the peer.
 	signalPeer := func(n ast.Node) bool { return has(condCalls(info, n, "Signal", "Broadcast"), peer) }
 	w := g.Path(cfgq.Query{From: sp, After: true, Avoid: signalPeer, TargetExit: cfgq.NormalExit,
-		AvoidEdge: func(b *cfg.Block, s int) bool { return noProgressEdge(info, b, s, binds) }})
+		AvoidEdge: func(b *cfg.Block, s int) bool { return noProgressEdge(g, info, b, s, binds) }})
 	c.Check("R2.wake", name+"/signal-on-progress", as.Pos(), w == nil,
 		fmt.Sprintf("every path on which the store made progress or failed (n != 0 || err != nil) must call %s.Signal() before returning, or the blocked peer is never woken", peer), w...)
 
@@ -210,7 +206,7 @@ func side(c *core.Ctx, fn *core.Fn, name, own, peer, peerErr string) {
 	for _, wp := range waits {
 		wn := wp.Node()
 		w1 := g.Path(cfgq.Query{From: g.Entry(), Target: func(n ast.Node) bool { return n == wn },
-			AvoidEdge: func(b *cfg.Block, s int) bool { return noProgressEdge(info, b, s, binds) }})
+			AvoidEdge: func(b *cfg.Block, s int) bool { return noProgressEdge(g, info, b, s, binds) }})
 		c.Check("R4.wait", name+"/only-without-progress", wn.Pos(), w1 == nil,
 			"Wait must be reachable only when the store call made no progress and returned no error (otherwise bytes are held back / the side sleeps with work to do)", w1...)
 		dom, w2 := g.Dominated(wp, func(n ast.Node) bool { return n == ast.Node(as) })
@@ -339,10 +335,10 @@ func r5read(c *core.Ctx, fn *core.Fn) {
 	// store read with no progress, or by `buffered() != 0` being false
 	as, binds := storeCall(c, fn, "readSome")
 	emptyEdge := func(b *cfg.Block, s int) bool {
-		if as != nil && noProgressEdge(info, b, s, binds) {
+		if as != nil && noProgressEdge(g, info, b, s, binds) {
 			return true
 		}
-		return cfgq.EdgeEstablishes(b, s, func(f cfgq.Fact) bool {
+		return g.Establishes(b, s, func(f cfgq.Fact) bool {
 			return pat.Expr("_p.store.buffered() != 0").Match(info, f.Expr, nil) != nil && !f.Val ||
 				pat.Expr("_p.store.buffered() == 0").Match(info, f.Expr, nil) != nil && f.Val
 		})
@@ -470,7 +466,7 @@ func closeRule(c *core.Ctx, method, errField, storeClose, defErr, rw, ww string)
 	}
 	w := g.Path(cfgq.Query{From: g.Entry(), Avoid: setOrAlready, TargetExit: cfgq.NormalExit,
 		AvoidEdge: func(bk *cfg.Block, s int) bool {
-			return cfgq.EdgeEstablishes(bk, s, func(f cfgq.Fact) bool {
+			return g.Establishes(bk, s, func(f cfgq.Fact) bool {
 				return pat.Expr("_p."+errField+" == nil").Match(info, f.Expr, nil) != nil && !f.Val || pat.Expr("_p."+errField+" != nil").Match(info, f.Expr, nil) != nil && f.Val
 			})
 		}})
@@ -530,15 +526,14 @@ func siblings(c *core.Ctx) {
 				}
 				adv, _ := find(pat.Stmt("_p.rpos += uint64(_n)"), b2)
 				chk("advance-rpos", adv != nil, "rpos advances by exactly the number of bytes transferred")
-				z, _ := find(pat.Stmt("if _p.rpos == _p.wpos { _x }"), b2)
-				okReset := false
-				if ifs, ok := findIf(info, body, pat.Expr("_p.rpos == _p.wpos"), b2); ok {
-					r1, _ := pat.Stmt("_p.rpos = 0").Find(info, ifs.Body, b2)
-					w1, _ := pat.Stmt("_p.wpos = 0").Find(info, ifs.Body, b2)
-					okReset = r1 != nil && w1 != nil
+				switch resetWhenEmpty(c, fn) {
+				case 1:
+					chk("reset-when-empty", true, "when rpos meets wpos both positions are reset to 0 together")
+				case 0:
+					chk("reset-when-empty", false, "when rpos meets wpos both positions are reset to 0 together (and only then)")
+				default:
+					c.Undecidedf("R6.sibling", tn+"."+m+"/reset-when-empty", fn.Decl.Pos(), "cannot see where the positions are reset")
 				}
-				_ = z
-				chk("reset-when-empty", okReset, "when rpos meets wpos both positions are reset to 0 together")
 				zero, _ := findIf(info, body, pat.Expr("_maxlen == 0"), b2)
 				okZero := false
 				if zero != nil {
@@ -593,6 +588,59 @@ func siblings(c *core.Ctx) {
 			}
 		}
 	}
+}
+
+// resetWhenEmpty: 1 = both positions are set to 0 exactly where rpos == wpos is
+// established (in fn or in a method it calls on the same receiver), 0 = they are
+// reset under another condition or only one of them is, -1 = not found.
+func resetWhenEmpty(c *core.Ctx, fn *core.Fn) int {
+	info := fn.Pkg.TypesInfo
+	cands := []*core.Fn{fn}
+	core.Inspect(fn.Decl.Body, func(n ast.Node) bool {
+		if call, ok := n.(*ast.CallExpr); ok {
+			if f := core.CalleeFunc(info, call); f != nil && f.Pkg() != nil && f.Pkg().Path() == fn.Pkg.PkgPath {
+				if h := c.FnOf(f); h != nil && h.Decl.Recv != nil && h.Decl.Body != nil {
+					cands = append(cands, h)
+				}
+			}
+		}
+		return true
+	})
+	zeroes := func(n ast.Node, field string) bool {
+		as, ok := n.(*ast.AssignStmt)
+		if !ok || len(as.Lhs) != len(as.Rhs) {
+			return false
+		}
+		for i, l := range as.Lhs {
+			if sel, ok := ast.Unparen(l).(*ast.SelectorExpr); ok && sel.Sel.Name == field {
+				if v, ok := core.IntConst(info, as.Rhs[i]); ok && v == 0 {
+					return true
+				}
+			}
+		}
+		return false
+	}
+	for _, cand := range cands {
+		g := cfgq.Of(c.Program, cand)
+		rp := g.Points(func(n ast.Node) bool { return zeroes(n, "rpos") })
+		wp := g.Points(func(n ast.Node) bool { return zeroes(n, "wpos") })
+		if len(rp) == 0 && len(wp) == 0 {
+			continue
+		}
+		if len(rp) == 0 || len(wp) == 0 {
+			return 0
+		}
+		for _, p := range append(rp, wp...) {
+			ok, _ := g.OnlyViaFact(p, func(f cfgq.Fact) bool {
+				return pat.Expr("_p.rpos == _p.wpos").Match(info, f.Expr, nil) != nil && f.Val || pat.Expr("_p.rpos != _p.wpos").Match(info, f.Expr, nil) != nil && !f.Val
+			})
+			if !ok {
+				return 0
+			}
+		}
+		return 1
+	}
+	return -1
 }
 
 func findIf(info *types.Info, root ast.Node, cond *pat.Pattern, b pat.Binds) (*ast.IfStmt, bool) {
